@@ -1,5 +1,6 @@
 import EinoV.Basic.JsonUtil
 import EinoV.Model.C11
+import EinoV.Model.C11Paths
 import EinoV.Expected.C11
 
 /-
@@ -35,6 +36,21 @@ import EinoV.Expected.C11
      "touched":[[cell…]…],"atCut":[[{"l","ctr","seq","order"}…]…]}
   (`resumePath` / `visible` with the Expected resume facts decide which cell a level works on
    after each resume)
+
+  {"k":"paths","ctrs":n,"in":"x",
+   "levels":[{"s":bool,"par":i|null,"key":"node key in the parent graph"}…],   -- pre-order
+   "prog":[{"l","g","op"} | {"f":"fork"} | {"f":"sib"} | {"f":"endsib","key":k} | {"f":"join"}…],
+                                                         -- a nest with parallel sibling graphs, flattened
+                                                         --   depth-first: fork saves the value handed to every
+                                                         --   sibling, join renders the siblings' results
+   "rounds":[{"cuts":[{"p":pos,"l":lvl}…],               -- one interrupt: the graphs `l` that interrupted
+                                                         --   themselves, each before prog[p]
+              "mod":[d per level]|null}…]}               -- resumed with the modifier "ctr[0] += d_l when
+                                                         --   called with the path of level l", or without
+  → {"out","err","cells","vis","paths":[[key…] per level],
+     "rounds":[{"calls":[{"l","path"}…],"at":[{"l","ctr","seq","order"}…]}…]}
+  (`nestLevels` / `modCalls` / `resumeNest` of Model/C11Paths.lean with the Expected resume facts:
+   which paths the caller's modifier is called with, and what every level works on afterwards)
 
   {"k":"locks","top":bool,"restored":r,"init":{"ctr","seq"},"tasks":[{"in","ops"}…],"micro":seed}
   → {"locks":[mutex id per task],"done":b,"ctr":[..],"seq":n}
@@ -325,6 +341,163 @@ def handleChain (c : Json) : JE Json := do
     ("touched", J.mkArr (st.touched.map J.mkNats)),
     ("atCut", J.mkArr atCut)]
 
+/-! ### resume family: nests with parallel sibling graphs — node paths and the modifier -/
+
+structure PLvl where
+  stateful : Bool
+  par : Option Nat
+  key : String
+
+/-- ancestors-or-self of level `l`, innermost first -/
+def ancestorsOf (levels : List PLvl) : Nat → Nat → List Nat
+  | 0, _ => []
+  | fuel + 1, l =>
+    l :: match (levels[l]?).bind (·.par) with
+         | some p => ancestorsOf levels fuel p
+         | none => []
+
+/-- the nest of the levels in `active` below level `parent`, with what each of them saved -/
+def buildSubs (levels : List PLvl) (active : List Nat) (saved : Nat → Option StL) :
+    Nat → Nat → LTrees StL
+  | 0, _ => .nil
+  | fuel + 1, parent =>
+    let kids := (List.range levels.length).filter fun i =>
+      active.contains i && ((levels[i]?).bind (·.par)) == some parent
+    kids.foldr (fun i acc =>
+      .cons (.mk ((levels[i]?.map (·.key)).getD "") (saved i)
+        (buildSubs levels active saved fuel i)) acc) .nil
+
+def insertKV (kv : String × String) : List (String × String) → List (String × String)
+  | [] => [kv]
+  | x :: xs => if kv.1 < x.1 then kv :: x :: xs else x :: insertKV kv xs
+
+def renderKVs (kvs : List (String × String)) : String :=
+  (kvs.foldr insertKV []).foldl (fun acc kv => acc ++ kv.1 ++ "=" ++ kv.2 ++ ";") ""
+
+def stLEq (a b : StL) : Bool := a.ctr == b.ctr && a.seq == b.seq && a.order == b.order
+
+def seenEq : Seen StL → Seen StL → Bool
+  | .own a, .own b => stLEq a b
+  | .inherited, .inherited => true
+  | _, _ => false
+
+def handlePaths (c : Json) : JE Json := do
+  let ctrs ← J.nat c "ctrs"
+  let levels ← (← J.arr c "levels").mapM fun lj => do
+    let par := match (J.fieldD lj "par" Json.null).getNat? with | .ok n => some n | .error _ => none
+    pure (⟨J.boolD lj "s" false, par, J.strD lj "key" ""⟩ : PLvl)
+  let n := levels.length
+  let chainLevels : List Lvl := levels.map fun l => ⟨l.stateful, l.par, 0⟩
+  let allIdx := List.range n
+  -- the node path of every level: the whole nest, top-level graph = level 0
+  let pathOf : List (List String) :=
+    (nestLevels (none : Option StL) (buildSubs levels allIdx (fun _ => none) (n + 1) 0)).map (·.1)
+  if pathOf.length != n then throw "paths: the levels are not a tree in pre-order"
+  let prog ← J.arr c "prog"
+  -- rounds: per round the cuts (pos, level) and the per-level deltas of the modifier
+  let rounds ← (← J.arr c "rounds").mapM fun rj => do
+    let cuts ← (← J.arr rj "cuts").mapM fun cj => do pure ((← J.nat cj "p"), (← J.nat cj "l"))
+    let modD : Option (List Nat) :=
+      match J.fieldD rj "mod" Json.null with
+      | .null => none
+      | _ => some ((J.arrD rj "mod").map fun x => (x.getNat?.toOption).getD 0)
+    -- per active level: the position at which it is checkpointed and restored
+    let active := allIdx.filter fun l => cuts.any fun (_, leaf) => (ancestorsOf levels (n + 1) leaf).contains l
+    let posOf := fun (l : Nat) =>
+      (cuts.filter fun (_, leaf) => (ancestorsOf levels (n + 1) leaf).contains l).foldl
+        (fun acc (p, _) => match acc with | none => some p | some q => some (min p q)) (none : Option Nat)
+    -- the caller's modifier, dispatching on the path
+    let m : Option (List String → StL → StL) := modD.map fun ds => fun q s =>
+      match (pathOf.zip ds).find? (fun x => x.1 == q) with
+      | some (_, d) => { s with ctr := s.ctr.modify 0 (· + d) }
+      | none => s
+    pure (active, posOf, m)
+  let fresh : StL := ⟨List.replicate ctrs 0, 0, []⟩
+  let mut st : ChainSt :=
+    { cells := List.replicate n fresh, vis := visOf chainLevels (fun _ => none), v := ← J.str c "in",
+      err := none, touched := List.replicate n [] }
+  let mut stack : List (String × List (String × String)) := []
+  let mut decided : List (Nat × Seen StL) := []
+  -- per round: what each active level saved / was resumed with (filled at its position)
+  let mut savedR : List (List (Nat × Option StL)) := rounds.map fun _ => []
+  let mut seenR : List (List (Nat × Seen StL)) := rounds.map fun _ => []
+  let mut pos := 0
+  for pj in prog ++ [Json.null] do
+    let mut ri := 0
+    for (active, posOf, m) in rounds do
+      for l in active do
+        if posOf l == some pos then
+          let declares := (levels[l]?.map (·.stateful)).getD false
+          let ctxState : Option StL := (st.vis.getD l none).bind fun cc => st.cells[cc]?
+          let sv := saveAt Expected.C11.cpSavesOwnStateOnly declares ctxState
+          let f := if l == 0 then Expected.C11.topResume else Expected.C11.subResume
+          let q := pathOf.getD l []
+          let sn := resumeLevel f (m.map (· q)) sv
+          savedR := savedR.modify ri (· ++ [(l, sv)])
+          seenR := seenR.modify ri (· ++ [(l, sn)])
+          decided := (decided.filter (·.1 != l)) ++ [(l, sn)]
+          match sn with
+          | .own s => st := { st with cells := st.cells.set l s }
+          | .inherited => pure ()
+          let dec := decided
+          st := { st with vis := visOf chainLevels (fun i => (dec.find? (·.1 == i)).map (·.2)) }
+      ri := ri + 1
+    if pj != Json.null then
+      match (J.fieldD pj "f" Json.null).getStr? with
+      | .ok "fork" => stack := (st.v, []) :: stack
+      | .ok "sib" =>
+        match stack with
+        | (v, _) :: _ => st := { st with v := v }
+        | [] => throw "paths: sib outside fork"
+      | .ok "endsib" =>
+        match stack with
+        | (v, outs) :: rest => stack := (v, outs ++ [(J.strD pj "key" "", st.v)]) :: rest
+        | [] => throw "paths: endsib outside fork"
+      | .ok "join" =>
+        match stack with
+        | (_, outs) :: rest =>
+          stack := rest
+          st := { st with v := renderKVs outs }
+        | [] => throw "paths: join outside fork"
+      | _ => st ← chainOp st (← J.nat pj "l") (← J.nat pj "g") (← J.field pj "op")
+    pos := pos + 1
+  -- the whole nest of every round at once: the modifier calls and what every level sees
+  let mut roundsJ : List Json := []
+  let mut ri := 0
+  for (active, _, m) in rounds do
+    let sv := savedR.getD ri []
+    let savedOf := fun (l : Nat) => ((sv.find? (·.1 == l)).map (·.2)).getD none
+    if !active.contains 0 then throw "paths: the top-level graph is not active at an interrupt"
+    let subs := buildSubs levels active savedOf (n + 1) 0
+    let lv := nestLevels (savedOf 0) subs
+    let levelOfPath := fun (q : List String) => ((allIdx.zip pathOf).find? (fun x => x.2 == q)).map (·.1)
+    let calls := modCalls lv
+    let nest := resumeNest Expected.C11.topResume Expected.C11.subResume m (savedOf 0) subs
+    -- the level-by-level run above must have used exactly `resumeNest`
+    for (q, sn) in nest do
+      match levelOfPath q with
+      | none => throw "paths: resumeNest produced an unknown path"
+      | some l =>
+        match (seenR.getD ri []).find? (·.1 == l) with
+        | some (_, sn') => if !seenEq sn sn' then throw s!"paths: level {l}: per-level and whole-nest resume differ"
+        | none => throw s!"paths: level {l} of the nest was not resumed in the run"
+    if nest.length != active.length then throw "paths: nest and active levels differ"
+    roundsJ := roundsJ ++ [Json.mkObj [
+      ("calls", J.mkArr (calls.map fun (q, _) =>
+        Json.mkObj [("l", match levelOfPath q with | some l => (l : Json) | none => Json.null),
+                    ("path", J.mkStrs q)])),
+      ("at", J.mkArr (sv.filterMap fun (l, o) => o.map fun s =>
+        Json.mkObj [("l", (l : Json)), ("ctr", J.mkNats s.ctr), ("seq", (s.seq : Json)),
+                    ("order", J.mkNats s.order)]))]]
+    ri := ri + 1
+  pure <| Json.mkObj [
+    ("out", Json.str st.v),
+    ("err", match st.err with | some e => Json.str e | none => Json.null),
+    ("cells", J.mkArr (st.cells.map stLJson)),
+    ("vis", J.mkArr (st.vis.map fun | some a => (a : Json) | none => Json.null)),
+    ("paths", J.mkArr (pathOf.map J.mkStrs)),
+    ("rounds", J.mkArr roundsJ)]
+
 /-! ### resume family: restored and later-created tasks, which mutex -/
 
 def noGuardL : SysL St V → Nat → Bool := fun _ _ => true
@@ -358,6 +531,7 @@ def handle (c : Json) : JE Json := do
   | "alloc" => handleAlloc c
   | "chain" => handleChain c
   | "locks" => handleLocks c
+  | "paths" => handlePaths c
   | k => throw s!"bad case kind {k}"
 
 end EinoV.Oracle.C11
